@@ -81,7 +81,11 @@ def make_case(i, rng, tier):
                     if nd is not None:
                         vs.append((nd, [F._rec("boundary", o, it, idx, old=it[3], new=val)]))
         if vs:
-            return common.with_variants(common.mk_case(rng, inp, inp["data"], []), vs[:400])
+            cap = 150 if tier == "quick" else 400
+            if len(vs) > cap:       # a seeded subset, in enumeration order (the quick tier has 75 s for everything)
+                keep = set(rng.sample(range(len(vs)), cap))
+                vs = [v for j, v in enumerate(vs) if j in keep]
+            return common.with_variants(common.mk_case(rng, inp, inp["data"], []), vs)
     data, recs = inp["data"], []
     r = rng.random()
     long_list = [idx for idx in leaves if "[" in o.items[idx][1] and int(o.items[idx][1].rsplit("[", 1)[1].split("]")[0]) >= 40]
